@@ -74,6 +74,36 @@ fn gen_item_bytes(rng: &mut rand_chacha::ChaCha8Rng, ident: &str, id: u32, style
 
 fn wire_tag24(inner: &[u8]) -> Vec<u8> { let mut o = vec![0xd8, 0x18]; head(2, inner.len() as u64, min_w(inner.len() as u64), &mut o); o.extend_from_slice(inner); o }
 
+/// (header length, content length) of the DER TLV at the start of `der`
+fn tlv(der: &[u8]) -> (usize, usize) {
+    match der[1] { n if n < 0x80 => (2, n as usize), 0x81 => (3, der[2] as usize), _ => (4, ((der[2] as usize) << 8) | der[3] as usize) }
+}
+fn wrap(tag: u8, content: &[u8]) -> Vec<u8> {
+    let mut out = vec![tag];
+    match content.len() { n if n < 0x80 => out.push(n as u8), n if n < 0x100 => out.extend([0x81, n as u8]), n => out.extend([0x82, (n >> 8) as u8, n as u8]) }
+    out.extend_from_slice(content); out
+}
+/// A v1 certificate whose issuer wrote the DEFAULT version out (`[0] EXPLICIT INTEGER 0`) and signed
+/// what it wrote: not canonical DER, accepted by X.509 parsers (x509-cert included), and changed by
+/// any decode/re-encode of the certificate.  Built from the fields of `cert` (extensions dropped).
+fn explicit_version_v1(cert: &x509_cert::Certificate, signer: &p256::ecdsa::SigningKey) -> Vec<u8> {
+    use der::Encode; use p256::ecdsa::signature::Signer;
+    let der = cert.to_der().unwrap();
+    let (h, _) = tlv(&der); let body = &der[h..];
+    let (th, tl) = tlv(body); let tbs = &body[th..th + tl]; let rest = &body[th + tl..];
+    let (ah, al) = tlv(rest); let alg = &rest[..ah + al];
+    // walk the TBS fields: [0] version, serial, signature, issuer, validity, subject, spki, [3] extensions
+    let mut fields: Vec<&[u8]> = vec![]; let mut cur = tbs;
+    while !cur.is_empty() { let (fh, fl) = tlv(cur); fields.push(&cur[..fh + fl]); cur = &cur[fh + fl..]; }
+    let mut content = vec![0xa0, 0x03, 0x02, 0x01, 0x00];
+    for f in fields.iter().filter(|f| f[0] != 0xa0 && f[0] != 0xa3) { content.extend_from_slice(f); }
+    let tbs2 = wrap(0x30, &content);
+    let sig: p256::ecdsa::Signature = signer.sign(&tbs2);
+    let mut bits = vec![0x00]; bits.extend_from_slice(sig.to_der().as_bytes());
+    let mut out = tbs2; out.extend_from_slice(alg); out.extend(wrap(0x03, &bits));
+    wrap(0x30, &out)
+}
+
 pub fn run(ctx: &mut Ctx) {
     let pki = Pki::new(&mut ctx.rng);
     let mut rng: rand_chacha::ChaCha8Rng = rand::SeedableRng::seed_from_u64(ctx.rng.gen());
@@ -133,12 +163,24 @@ pub fn run(ctx: &mut Ctx) {
     let sessions = if ctx.thorough { 150 } else { 12 };
     for s in 0..sessions {
         let mdoc = world::issue(&pki, MDL, sess::default_ns_values(), DigestAlgorithm::SHA256, s % 2 == 0, &key).unwrap();
-        let mut doc = Document::from(mdoc);
+        let mut mdoc = mdoc;
+        let doc0 = Document::from(mdoc.clone());
         // issuerAuth with a non-canonically encoded protected header (alg -7 as a 2-byte negative integer) and tagged/untagged forms
-        let ia_v: Value = cbor::into_value(doc.issuer_auth.clone()).unwrap();
+        let ia_v: Value = cbor::into_value(doc0.issuer_auth.clone()).unwrap();
         let mut arr = match ia_v { Value::Array(a) => a, Value::Tag(_, b) => match *b { Value::Array(a) => a, _ => vec![] }, _ => vec![] };
         let prot: Vec<u8> = match s % 3 { 0 => vec![0xa1, 0x01, 0x38, 0x06], 1 => vec![0xbf, 0x01, 0x26, 0xff], _ => vec![0xa1, 0x01, 0x26] };
         arr[0] = Value::Bytes(prot.clone());
+        // unprotected header: sometimes a further parameter (kid) next to the x5chain, sometimes the document
+        // signer certificate in a form that does not survive a DER decode/re-encode, sometimes both
+        if let Some(Value::Map(un)) = arr.get_mut(1) {
+            if s % 5 == 1 || s % 5 == 3 {
+                let odd = explicit_version_v1(&pki.ds, &pki.iaca_key);
+                let accepted = isomdl::definitions::x509::X5Chain::from_cbor(Value::Bytes(odd.clone())).is_ok();
+                ctx.emit.line("spec", "spec:x5chain:explicit-default-version-accepted", format!("spec.eq {} true", accepted), "true".into(), serde_json::json!({"msg_hex": hex::encode(&odd)}));
+                for (k, v) in un.iter_mut() { if k.as_integer().map(i128::from) == Some(33) { *v = Value::Bytes(odd.clone()); } }
+            }
+            if s % 5 == 1 || s % 5 == 2 { un.push((Value::Integer(4.into()), Value::Bytes(vec![0x6b, 0x31]))); }
+        }
         // the MSO payload in a foreign encoding too (a different issuer's encoder): #6.24(bstr) with a shortest head around non-canonical MSO bytes
         if s % 4 != 3 {
             if let Some(Value::Bytes(pl)) = arr.get(2).cloned() {
@@ -155,7 +197,9 @@ pub fn run(ctx: &mut Ctx) {
         let ia_val = if s % 2 == 0 { Value::Tag(18, Box::new(Value::Array(arr.clone()))) } else { Value::Array(arr.clone()) };
         let ia_bytes = to_bytes(&ia_val);
         let ia: MaybeTagged<coset::CoseSign1> = match cbor::from_slice(&ia_bytes) { Ok(x) => x, Err(_) => { ctx.emit.line("spec", "spec:issuerAuth:accepted", "spec.eq rejected accepted".into(), "true".into(), serde_json::json!({"msg_hex": hex::encode(&ia_bytes)})); continue } };
-        doc.issuer_auth = ia;
+        // the holder receives the mdoc with this issuerAuth and imports it (`From<Mdoc> for Document`)
+        mdoc.issuer_auth = ia;
+        let mut doc = Document::from(mdoc);
         // items in foreign encodings
         let mut items: Vec<(String, Vec<u8>)> = vec![];
         let mut em: Option<NonEmptyMap<String, Tag24<IssuerSignedItem>>> = None;
@@ -177,6 +221,8 @@ pub fn run(ctx: &mut Ctx) {
             let v: Value = cbor::into_value(cur.issuer_auth.clone()).unwrap();
             let a = match v { Value::Array(a) => a, Value::Tag(_, b) => match *b { Value::Array(a) => a, _ => vec![] }, _ => vec![] };
             stored_ok &= a.first().and_then(|p| p.as_bytes()) == Some(&prot) && a.get(2) == arr.get(2) && a.get(3) == arr.get(3);
+            let x5 = |arr: &Vec<Value>| arr.get(1).and_then(|u| u.as_map()).and_then(|m| m.iter().find(|(k, _)| k.as_integer().map(i128::from) == Some(33)).map(|(_, v)| v.clone()));
+            stored_ok &= x5(&a) == x5(&arr);
         }
         ctx.emit.line("spec", "spec:document:storage-cycles", format!("spec.eq {} true", stored_ok), "true".into(), serde_json::json!({"session": s, "items": items.len()}));
         // transfer
@@ -216,6 +262,9 @@ pub fn run(ctx: &mut Ctx) {
                 let expect = format!("protected={} payload={} signature={} x5chain={}", hex::encode(&prot), arr.get(2).and_then(|p| p.as_bytes()).map(hex::encode).unwrap_or("nil".into()),
                     arr.get(3).and_then(|p| p.as_bytes()).map(hex::encode).unwrap_or_default(), x5);
                 ctx.emit.line("corr", "issuerAuth:transferred", format!("c10.cose {}", hex::encode(&untagged)), expect, serde_json::json!({"msg_hex": hex::encode(&iab)}));
+                // the same four parts compared directly (protected bytes, payload, signature, x5chain value)
+                let x5v = |arr: &Vec<Value>| arr.get(1).and_then(|u| u.as_map()).and_then(|m| m.iter().find(|(k, _)| k.as_integer().map(i128::from) == Some(33)).map(|(_, v)| v.clone()));
+                sent_ok &= a.first() == arr.first() && a.get(2) == arr.get(2) && a.get(3) == arr.get(3) && x5v(&a) == x5v(&arr);
             } else { sent_ok = false; }
         }
         ctx.emit.line("spec", "spec:document:transfer", format!("spec.eq {} true", sent_ok), "true".into(), serde_json::json!({"session": s, "items": items.len()}));
